@@ -237,6 +237,33 @@ done:
 			n = m
 		}
 	}
+	// lenient modes: what was accepted stays accepted across a restart (origin down): the policy means the same when
+	// the stored list is found again as it did when the list came in
+	// (not for the provisioning path: a configured URL is fetched again by Provision, which fails outright with the
+	// origin down — no property speaks about that — and without it the location is a different one)
+	if backend == "disk" && !verify && !n.Dead && path != "provision" {
+		before := loc.Pattern(n)
+		if strings.HasPrefix(before, "v") {
+			h.Cleanup(n)
+			h.Settle(6 * time.Minute)
+			loc.State = oDown
+			cfg2 := cfg
+			cfg2.CRLUrls = nil
+			m := h.NewNodeOn("n1z", cfg2, n.WorkDir)
+			if err := h.Provision(m); err == nil {
+				hs := h.Handshake(m, "post-restart", chain)
+				h.Quiesce()
+				p := loc.Pattern(m)
+				h.R.Checks++
+				sc["pattern_after-restart"] = p
+				if p != before || hs.Err != nil {
+					h.Violation("C16.lenient-mode-not-in-force", sigClass()+":after-restart", "cell %s: the list accepted under signature mode %q (pattern %s) is not in force after a restart with the origin down: pattern %s, strict handshake %v", cell, mode, before, p, hs.Err)
+				}
+				n = m
+			}
+			loc.State = oGood
+		}
+	}
 	// the configuration decides who may sign a configured CRL — also after a restart: provisioning again on the
 	// same work_dir WITHOUT the trusted signer must not let a list signed by that (now unconfigured) signer in
 	if path == "provision" && signer == "config" && verify && !n.Dead {
